@@ -10,8 +10,10 @@ package fingerproxy
 import (
 	"context"
 	"crypto/tls"
+	"hash"
 	"math"
 	"net/http"
+	"net/http/httputil"
 	"net/url"
 	"time"
 
@@ -155,4 +157,57 @@ func VerifC14_tls_config_wiring() {
 	want, _ := cw.GetCertificate(nil)
 	vAssert(err == nil && got == want, "tls-config-uses-the-watcher")
 	vAssert(len(cfg.Certificates) == 0, "no-static-certificate-shadows-the-watcher")
+}
+
+type wiringHash struct{ data []byte }
+
+func (h *wiringHash) Write(p []byte) (int, error) { h.data = append(h.data, p...); return len(p), nil }
+func (h *wiringHash) Sum(b []byte) []byte         { return append(b, vHash("sha256", h.data, 32)...) }
+func (h *wiringHash) Reset()                      { h.data = nil }
+func (h *wiringHash) Size() int                   { return 32 }
+func (h *wiringHash) BlockSize() int              { return 64 }
+
+// SHA-256 is uninterpreted here as in the C02 harnesses (the JA4 injector runs too)
+//
+//verif:replace crypto/sha256.New
+func wiringNewSHA256() hash.Hash { return &wiringHash{} }
+
+// C01/C03 end to end at repository level: a request that arrived on a connection with metadata
+// md, pushed through the real rewriteFunc with the real default injectors, leaves with
+// X-JA3-Fingerprint = JA3 of md's record and X-HTTP2-Fingerprint = the record's fingerprint
+// (HTTP/2) or none (HTTP/1.1) - whatever the client put under those names.
+func VerifC01_header_end_to_end() {
+	flagMaxHTTP2PriorityFrames = nil
+	rp := &httputil.ReverseProxy{}
+	reverseproxy.NewHTTPHandler(&url.URL{Scheme: "http", Host: "backend:80"}, rp, DefaultHeaderInjectors())
+	// a minimal ClientHello: version, one symbolic cipher, no extensions
+	ver, cipher := vU16("version"), vU16("cipher")
+	body := []byte{byte(ver >> 8), byte(ver)}
+	body = append(body, make([]byte, 32)...)
+	body = append(body, 0, 0, 2, byte(cipher>>8), byte(cipher), 1, 0)
+	hs := append([]byte{1, 0, 0, byte(len(body))}, body...)
+	rec := append([]byte{0x16, 3, 1, 0, byte(len(hs))}, hs...)
+	ctx, md := metadata.NewContext(context.Background())
+	md.ClientHelloRecord = rec
+	proto := []string{"h2", "http/1.1"}[vRange("proto", 0, 1)]
+	md.ConnectionState.NegotiatedProtocol = proto
+	md.HTTP2Frames.WindowUpdateIncrement = vU32("wu")
+	in := (&http.Request{Method: "GET", URL: &url.URL{Path: "/"}, Header: http.Header{}, Host: "front", RemoteAddr: "192.0.2.1:9"}).WithContext(ctx)
+	if vBool("clientSpoofs") {
+		in.Header["X-Ja3-Fingerprint"] = []string{"spoofed"}
+		in.Header["X-Http2-Fingerprint"] = []string{"spoofed"}
+	}
+	out := in.Clone(ctx)
+	rp.Rewrite(&httputil.ProxyRequest{In: in, Out: out})
+	vReach("rewritten-with-default-injectors")
+	wantJA3, err := fp.JA3Fingerprint(md)
+	vAssert(err == nil, "record-parses")
+	got := out.Header["X-Ja3-Fingerprint"]
+	vAssert(len(got) == 1 && got[0] == wantJA3, "ja3-header-is-ja3-of-the-connections-hello")
+	h2 := out.Header["X-Http2-Fingerprint"]
+	if proto == "h2" {
+		vAssert(len(h2) == 1 && h2[0] == md.HTTP2Frames.Marshal(math.MaxUint), "http2-header-is-the-connections-fingerprint")
+	} else {
+		vAssert(len(h2) == 0, "no-http2-header-on-http1")
+	}
 }
